@@ -191,6 +191,10 @@ type Reply struct {
 	// TrailerDeclList announces all declared trailers in ONE Trailer header value, as a
 	// comma + space separated list ("A, B, C"), the way most servers and proxies do.
 	TrailerDeclList bool
+	// ExtraHTTPTrailer: additional real HTTP trailers (set with http.TrailerPrefix after the
+	// body), as a middleware in front of the backend (Server-Timing, tracing) would add them -
+	// also for protocols that carry their own trailers elsewhere.
+	ExtraHTTPTrailer http.Header
 }
 
 // Backend is a scripted http.Handler that records what it saw.
@@ -305,6 +309,9 @@ func WriteReply(w http.ResponseWriter, rep *Reply, errs *[]string) {
 			panic(rep.Panic)
 		}
 		return
+	}
+	for k, v := range rep.ExtraHTTPTrailer {
+		h[http.TrailerPrefix+k] = append([]string(nil), v...)
 	}
 	for k, v := range out.Trailer {
 		if rep.DeclaredTrailers {
